@@ -175,18 +175,21 @@ def t_access(E, shape, access):
         E.prove(Not(inside_other), 'a record inside a range locked through another number must be denied')
 
 
-def t_open(E, existing_mode, new_mode):
+def t_open(E, existing_mode, new_mode, number=2):
+    """number 0 is how SAVE / LOAD / MERGE / BLOAD / BSAVE / CHAIN open their file."""
     locks = diskfiles.Locks()
     if existing_mode is not None:
         locks._locking_parameters = {1: _file(b'DATA.DAT', mode=existing_mode)}
-    r = E.call(locks.open_file, b'C:\\DIR\\data.dat', 2, new_mode, b'', b'')
+    r = E.call(locks.open_file, b'C:\\DIR\\data.dat', number, new_mode, b'', b'')
     must_fail = existing_mode is not None and (existing_mode in (b'O', b'A') or new_mode in (b'O', b'A'))
     if must_fail:
         E.prove(r.is_error(BASICError, error.FILE_ALREADY_OPEN),
                 'a file open for OUTPUT/APPEND (or opened for it while open) cannot be opened again')
-        E.prove(2 not in locks._locking_parameters, 'not registered')
+        E.prove(number not in locks._locking_parameters, 'not registered')
+    elif number:
+        E.prove(not r.raised and number in locks._locking_parameters, 'shared opening is registered')
     else:
-        E.prove(not r.raised and 2 in locks._locking_parameters, 'shared opening is registered')
+        E.prove(not r.raised and 0 not in locks._locking_parameters, 'number-less opening is allowed and not registered')
     # after closing, it can be opened again in any mode
     E.call(locks.close_file, 1)
     E.call(locks.close_file, 2)
@@ -204,7 +207,7 @@ TASKS = [
     Task('Locks.try_record_access', t_access, covers=('denied', 'granted'),
          cases=[{'shape': s, 'access': a} for s in _SHAPES for a in (b'R', b'W', b'RW')]),
     Task('Locks.open_file', t_open,
-         cases=[{'existing_mode': e, 'new_mode': n} for e in [None] + _MODES for n in _MODES]),
+         cases=[{'existing_mode': e, 'new_mode': n, 'number': k} for e in [None] + _MODES for n in _MODES for k in (2, 0)]),
 ]
 
 ASSUMPTIONS = [
